@@ -56,7 +56,8 @@ ASSUMPTIONS = [
 REQUIRED = ["grammar_reads", "rows_compared", "comments_compared", "ignored_field_warnings",
             "extra_cols_compared", "faults_injected", "faults_raised", "bytes_faults_injected",
             "sorted_reads", "population_reads", "src_text", "src_bytes", "src_path",
-            "entry_read_swc", "entry_from_swc", "tap_parse_swc_raise", "tap_exit_with_exception",
+            "entry_read_swc", "entry_from_swc", "ids_beyond_2_53", "lone_cr_line_ends",
+            "tap_parse_swc_raise", "tap_exit_with_exception",
             "fault_beyond_buffer"]
 FLOOR = {"quick": 1500, "thorough": 30000}
 SHARDS = {"quick": 8, "thorough": 16}
@@ -103,7 +104,7 @@ def _ws(rng):
 
 
 def gen_doc(seed: int, *, arbitrary_ids: bool = False, max_rows: int = 40, charset="utf-8",
-            request_all: bool = True):
+            request_all: bool = True, big_ids: bool = False, lone_cr: bool = False):
     """Draw a table and a rendering of it. Returns a dict with rows / lines / comments."""
     rng = np.random.default_rng(seed)
     u = rng.random()
@@ -111,8 +112,12 @@ def gen_doc(seed: int, *, arbitrary_ids: bool = False, max_rows: int = 40, chars
     pid = [-1] + [int(rng.integers(0, i)) for i in range(1, n)]
     if arbitrary_ids:
         ids = rng.choice(np.arange(0, 20 * n + 50), size=n, replace=False).tolist()
+        if big_ids:  # ids that no longer fit a double exactly
+            ids = [int(v) + 2**53 + 1 for v in ids]
     else:
         base = int(rng.choice([0, 1, 1, 5, 1000]))
+        if big_ids:
+            base = int(rng.choice([2**53 + 1, 2**60 + 7]))
         ids = [base + i for i in range(n)]
     nextra = int(rng.integers(0, 3))
     ask = int(rng.integers(0, nextra + 1))
@@ -155,6 +160,8 @@ def gen_doc(seed: int, *, arbitrary_ids: bool = False, max_rows: int = 40, chars
         lines.append(("comment", "# trailer", " trailer"))
     eol = str(rng.choice(["\n", "\n", "\r\n"]))
     final_eol = bool(rng.random() < 0.8)
+    if lone_cr:  # old-style line ends; a text *file* (path / bytes) reads them as line ends
+        eol = "\r"
     return {"rows": rows, "order": order, "lines": lines, "eol": eol, "final_eol": final_eol,
             "nextra": nextra, "ask": ask, "n": n}
 
@@ -247,9 +254,15 @@ def _opts_kw(o, doc):
 
 
 def check_grammar(ctx, case, tmp):
-    doc = gen_doc(case["seed"], max_rows=case.get("max_rows", 40),
-                  charset=_charset(case["opts"]))
     o = case["opts"]
+    big = bool(case.get("big_ids")) and (o["entry"] == "read_swc" or o["reset_index"])
+    cr = bool(case.get("lone_cr")) and o["kind"] != "text"
+    doc = gen_doc(case["seed"], max_rows=case.get("max_rows", 40),
+                  charset=_charset(case["opts"]), big_ids=big, lone_cr=cr)
+    if big:
+        ctx.count("ids_beyond_2_53")
+    if cr:
+        ctx.count("lone_cr_line_ends")
     text = render(doc)
     src = _source(o["kind"], text, o["encoding"], tmp)
     ctx.count("src_" + o["kind"])
@@ -394,7 +407,10 @@ def check_bytes(ctx, case, tmp):
 
 def check_sort(ctx, case, tmp):
     o = case["opts"]
-    doc = gen_doc(case["seed"], arbitrary_ids=True, max_rows=case.get("max_rows", 40))
+    doc = gen_doc(case["seed"], arbitrary_ids=True, max_rows=case.get("max_rows", 40),
+                  big_ids=bool(case.get("big_ids")))
+    if case.get("big_ids"):
+        ctx.count("ids_beyond_2_53")
     text = render(doc)
     src = _source(o["kind"], text, "utf-8", tmp)
     kw = {"sort_nodes": True}
@@ -531,7 +547,8 @@ def run(ctx):
             big = rng.random() < (0.02 if ctx.quick else 0.04)
             max_rows = int(rng.integers(400, 2000 if ctx.quick else 12000)) if big else 40
             if u < 3:
-                case = {"kind": "grammar", "seed": seed, "max_rows": max_rows}
+                case = {"kind": "grammar", "seed": seed, "max_rows": max_rows,
+                        "big_ids": bool(rng.random() < 0.15), "lone_cr": bool(rng.random() < 0.15)}
                 case["opts"] = _draw_opts(rng, None)
                 ctx.case(case, klass="grammar")
                 execute(ctx, case)
@@ -568,7 +585,8 @@ def run(ctx):
                 execute(ctx, case)
             elif u < 9 or k % 50 != 9:
                 opts = _draw_opts(rng, None, allow_detect=False)
-                case = {"kind": "sort", "seed": seed, "max_rows": min(max_rows, 400), "opts": opts}
+                case = {"kind": "sort", "seed": seed, "max_rows": min(max_rows, 400), "opts": opts,
+                        "big_ids": bool(rng.random() < 0.2)}
                 ctx.case(case, klass="sort")
                 execute(ctx, case)
             else:
